@@ -63,8 +63,10 @@ def Data.Faithful (h : Hist β) (id : Id) (d : Data β) : Prop :=
 def FaithfulAt (h : Hist β) (ds : Dirs β) (id : Id) : Prop :=
   ∀ d, (id, some d) ∈ ds → d.Faithful h id
 
+/-- the leader's cache, and what its input appends during the session, are copies of the
+    history of the leader's run id -/
 def Leader.Faithful (h : Hist β) (L : Leader β) : Prop :=
-  ∀ d, L.data = some d → d.Faithful h L.cur
+  ∀ d, L.data = some d → d.Faithful h L.cur ∧ L.tail = hseg h L.cur d.right L.tail.length
 
 /-- reachable shapes of a follower store. Disk: the storer's current id, when set, names an
     existing directory. Memory: at most the current id has data, none without an id. -/
@@ -419,17 +421,23 @@ theorem sendData_shape (h : Hist β) (L : Leader β) (hL : L.Faithful h) (rid : 
   split
   · exact .ctl _ (Or.inr (Or.inl rfl))
   · next d hd =>
-    have hf := hL d hd
+    obtain ⟨hf, htl⟩ := hL d hd
     split
     · next hin =>
       simp only [Leader.inAof, Bool.and_eq_true, decide_eq_true_eq] at hin
       obtain ⟨⟨_, hlo⟩, hhi⟩ := hin
-      simp only [Data.right] at hhi
-      refine .aof _ _ (d.bytes.length - (off - (d.base : Int)).toNat) hid (by omega) ?_
-      rw [chop_flatten, hf.1, hseg_drop _ _ _ _ _ (by simp; omega), ← hid]
-      simp only [hseg_length]
+      simp only [Data.right] at hhi htl
+      refine .aof _ _ (d.bytes.length - (off - (d.base : Int)).toNat + L.tail.length) hid (by omega) ?_
+      rw [chop_flatten, hseg_append, ← hid]
       congr 1
-      omega
+      · rw [hf.1, hseg_drop _ _ _ _ _ (by simp; omega)]
+        simp only [hseg_length]
+        congr 1
+        omega
+      · rw [htl]
+        simp only [hseg_length]
+        congr 1
+        omega
     · split
       · exact .ctl _ (Or.inr (Or.inl rfl))
       · next s hs =>
